@@ -54,7 +54,7 @@ type emitted struct {
 // string with a multi-byte character (spelled literally in two of the three renderings)
 func concStr(s string) string {
 	if s == "zz" {
-		return "z\u00e9"
+		return "z\u00e9\u01ff" // U+01FF is the largest code point an octal escape can name (\777)
 	}
 	return s
 }
@@ -77,7 +77,9 @@ func render(ts []tok, variant int) string {
 				b.WriteByte('"')
 				for i, c := range t.T {
 					switch {
-					case c > 0x7f: // the language's \x and octal escapes denote code points below 0x100, not bytes
+					case c > 0xff && c <= 0x1ff: // three octal numerals name code points up to U+01FF
+						fmt.Fprintf(&b, "\\%03o", c)
+					case c > 0x7f: // the language's \x and octal escapes denote code points, not bytes
 						fmt.Fprintf(&b, "\\u%04x", c)
 					case i%2 == 0:
 						fmt.Fprintf(&b, "\\x%02x", c)
@@ -123,7 +125,7 @@ func sampleTest(depth int) *tm.Test {
 			t.Int32Repeats = append(t.Int32Repeats, int32(1000+k))
 		}
 		t.Strkeymap = map[string]*tm.Test_Nested{"a": {Intfield: 5, Bytesfield: []byte("bytes-in-map"), Nested: sampleTest(0)},
-			"z\u00e9": {Intfield: 6, Bytesfield: []byte("bytes under the non-ASCII key"), Nested: sampleTest(0)}}
+			"z\u00e9\u01ff": {Intfield: 6, Bytesfield: []byte("bytes under the non-ASCII key"), Nested: sampleTest(0)}}
 		t.Boolkeymap = map[bool]*tm.Test{true: sub}
 		t.Int32Keymap = map[int32]*tm.Test{0: sub, 1: sampleTest(0), -1: sampleTest(0), 15: sub, 16: sub}
 		t.Int64Keymap = map[int64]*tm.Test{0: sub, 1: sub, -1: sub, 15: sub, 16: sub, 2147483648: sub, -2147483649: sub, 4294967296: sub}
